@@ -42,3 +42,5 @@ reg('C15', 'propchecks.c15', 'proof', [('Bashlex.Props.C15', C15M), ('Bashlex.Pr
      ('Bashlex.Props.visit_balanced', C15M), ('Bashlex.Props.preorder_mapPos', C15M), ('Bashlex.Props.kinds_covered', C15M)], [CORR])
 
 reg('C06', 'propchecks.c06', 'proof', T1[:1], [ASCII, DEPTH, CORR, 'quote removal: per-input evaluation against the Lean definition; no all-inputs theorem for the expander yet'])
+
+reg('C07', 'propchecks.c07', 'proof', T1[:1], [ASCII, DEPTH, CORR])
